@@ -63,6 +63,9 @@ class DrillholesGroupTable(ABC):
         :return: The structured array.
         """
         # create the structured array
+        if output.shape[0] == 0:
+            return np.empty(0, dtype=[(data_name, "O") for data_name in names])
+
         dtype = []
         for idx, data_name in enumerate(names):
             type_temp = np.array([output[0, idx]]).dtype
